@@ -516,3 +516,31 @@ func ReadWrite[E constraint.Element](cs constraint.ConstraintSystemGeneric[E]) (
 	}
 	return
 }
+
+// LevelConflict checks the invariant that makes the solver's worker schedules irrelevant: no
+// instruction reads a wire written by an instruction of the same or a later level.  It returns a
+// description of the first conflict, or nil.
+func LevelConflict[E constraint.Element](ccs constraint.ConstraintSystemGeneric[E]) map[string]any {
+	sys := SystemOf(ccs)
+	levelOf := make([]int, len(sys.Instructions))
+	for l, lv := range sys.Levels {
+		for _, i := range lv {
+			levelOf[i] = l
+		}
+	}
+	reads, writes := ReadWrite[E](ccs)
+	writer := map[uint32]int{}
+	for i, ws := range writes {
+		for _, w := range ws {
+			writer[w] = i
+		}
+	}
+	for i, rs := range reads {
+		for _, w := range rs {
+			if j, ok := writer[w]; ok && j != i && levelOf[j] >= levelOf[i] {
+				return map[string]any{"instruction": i, "level": levelOf[i], "reads_wire": w, "written_by": j, "writer_level": levelOf[j]}
+			}
+		}
+	}
+	return nil
+}
